@@ -752,9 +752,7 @@ static RS_MX_NSZ_MX: [u8; 16] = [
 static S_NS_NSD: [SetV; 1] = [SetV { rtype: T_NS, raw: &RS_NS_NSD }];
 static S_NS_NSE: [SetV; 1] = [SetV { rtype: T_NS, raw: &RS_NS_NSE }];
 static S_NS_NSZ: [SetV; 1] = [SetV { rtype: T_NS, raw: &RS_NS_NSZ }];
-static S_NS_OUT: [SetV; 1] = [SetV { rtype: T_NS, raw: &RS_NS_OUT }];
 static S_NS_NSD_NSZ: [SetV; 1] = [SetV { rtype: T_NS, raw: &RS_NS_NSD_NSZ }];
-static S_A: [SetV; 1] = [SetV { rtype: T_A, raw: &RS_A }];
 static S_A_TXT: [SetV; 2] = [SetV { rtype: T_A, raw: &RS_A }, SetV { rtype: T_TXT, raw: &RS_TXT }];
 static S_CNAME1: [SetV; 1] = [SetV { rtype: T_CNAME, raw: &RS_CNAME1 }];
 static S_CNAME2: [SetV; 1] = [SetV { rtype: T_CNAME, raw: &RS_CNAME2 }];
@@ -762,11 +760,6 @@ static S_CNAME1_A: [SetV; 2] = [SetV { rtype: T_CNAME, raw: &RS_CNAME1 }, SetV {
 static S_TXT_CNAME2: [SetV; 2] = [SetV { rtype: T_TXT, raw: &RS_TXT }, SetV { rtype: T_CNAME, raw: &RS_CNAME2 }];
 static S_MX_MX: [SetV; 1] = [SetV { rtype: T_MX, raw: &RS_MX_MX }];
 static S_MX_NSZ_MX: [SetV; 1] = [SetV { rtype: T_MX, raw: &RS_MX_NSZ_MX }];
-static S_APEX_FULL: [SetV; 3] = [
-    SetV { rtype: T_NS, raw: &RS_NS_NSZ },
-    SetV { rtype: T_MX, raw: &RS_MX_MX },
-    SetV { rtype: T_TXT, raw: &RS_TXT },
-];
 static S_NS_NSD_CNAME2: [SetV; 2] = [SetV { rtype: T_NS, raw: &RS_NS_NSD }, SetV { rtype: T_CNAME, raw: &RS_CNAME2 }];
 
 static NODES_NONE: [NodeV; 0] = [];
@@ -776,17 +769,6 @@ static NODES_D_NSD_NSZ: [NodeV; 1] = [NodeV { owner: N_D, sets: &S_NS_NSD_NSZ }]
 static NODES_WILD_NS: [NodeV; 1] = [NodeV { owner: N_WILD, sets: &S_NS_NSZ }];
 static NODES_APEX_MX: [NodeV; 1] = [NodeV { owner: N_APEX, sets: &S_MX_MX }];
 static NODES_H_MX2: [NodeV; 1] = [NodeV { owner: N_H, sets: &S_MX_NSZ_MX }];
-static NODES_CLEAN: [NodeV; 3] = [
-    NodeV { owner: N_APEX, sets: &S_APEX_FULL },
-    NodeV { owner: N_D, sets: &S_NS_NSD },
-    NodeV { owner: N_WILD, sets: &S_A_TXT },
-];
-static NODES_DIRTY: [NodeV; 1] = [NodeV { owner: N_D, sets: &S_NS_NSD_CNAME2 }];
-static NODES_DEDUPE: [NodeV; 3] = [
-    NodeV { owner: N_APEX, sets: &S_MX_MX },
-    NodeV { owner: N_D, sets: &S_NS_NSZ },
-    NodeV { owner: N_H, sets: &S_MX_MX },
-];
 static NODES_H_CNAME1: [NodeV; 1] = [NodeV { owner: N_H, sets: &S_CNAME1 }];
 static NODES_H_CNAME2: [NodeV; 1] = [NodeV { owner: N_H, sets: &S_CNAME2 }];
 static NODES_H_CNAME1_A: [NodeV; 1] = [NodeV { owner: N_H, sets: &S_CNAME1_A }];
@@ -822,16 +804,8 @@ fn base<'f>(
 // hint sequences (see `Facts::hints`); every scenario's apex NS set comes first
 static H_NSZ: [(usize, bool); 1] = [(N_NSZ, false)];
 static H_OUT_NSZ: [(usize, bool); 2] = [(N_OUT, false), (N_NSZ, false)];
-static H_NSZ_NSD_GLUE: [(usize, bool); 3] = [(N_NSZ, false), (N_NSD, false), (N_NSD, true)];
 static H_NSZ_NSE_GLUE: [(usize, bool); 3] = [(N_NSZ, false), (N_NSE, false), (N_NSE, true)];
-static H_OUT_NSD_GLUE_NSZ_GLUE: [(usize, bool); 5] =
-    [(N_OUT, false), (N_NSD, false), (N_NSD, true), (N_NSZ, false), (N_NSZ, true)];
-static H_OUT_NSZ_GLUE: [(usize, bool); 3] = [(N_OUT, false), (N_NSZ, false), (N_NSZ, true)];
 static H_NSZ_MX: [(usize, bool); 2] = [(N_NSZ, false), (N_MX, false)];
-static H_NSZ_NSZ_MX: [(usize, bool); 3] = [(N_NSZ, false), (N_NSZ, false), (N_MX, false)];
-static H_CLEAN: [(usize, bool); 4] = [(N_NSZ, false), (N_MX, false), (N_NSD, false), (N_NSD, true)];
-static H_DIRTY: [(usize, bool); 2] = [(N_NSD, false), (N_NSD, true)];
-static H_DEDUPE: [(usize, bool); 4] = [(N_NSZ, false), (N_MX, false), (N_NSZ, false), (N_MX, false)];
 
 // --------------------------------------------------------------------------
 // harnesses
@@ -921,70 +895,8 @@ fn c21_apex_ns_two_both() {
     kani::cover!(e.is_empty() && cc == 4, "HS: none");
 }
 
-/// Node d. {NS ns.d.}: the plain lookup of ns.d. answers with kind `k`
-/// (concrete), the glue lookup with any answer (symbolic).
-fn delegation_own_ns(k: usize) -> (IssueSet, Ans, Ans, u16, bool) {
-    let (class, class_code) = any_class();
-    let (policy, wide) = any_policy();
-    let mut f = base(class, class_code, policy, wide, &NODES_D_NSD, &H_NSZ_NSD_GLUE);
-    let t0 = kind_ans(k, N_D);
-    let t1 = any_ans(N_D);
-    f.table[N_NSD][0] = t0;
-    f.table[N_NSD][1] = t1;
-    (run(&f, 1), t0, t1, class_code, wide)
-}
-
-// @harness props=C21 tier=thorough mem=8 t=7200 cbmc="--max-field-sensitivity-array-size 256"
-//   fn="validation::validate,scan_node,check_delegation_ns_address,check_glue"
-//   bound="apex in order; node d. {NS ns.d.}; lookup_addrs(ns.d.) = Referral(d.) (the name server lies inside the delegation), the glue lookup (search_below_cuts) symbolic: 5 kinds, A/AAAA presence; class and glue policy symbolic; unwind 4"
-//   sym="class, policy, glue-lookup table entry" stubs="S1,M1"
-#[kani::proof]
-#[kani::unwind(4)]
-fn c21_delegation_own_ns_referral() {
-    let (e, _t0, t1, class_code, wide) = delegation_own_ns(3);
-    kani::cover!(e.has(K_GLUE, N_NSD) && !wide && matches!(t1, Ans::NxDomain), "narrow: missing glue for a name server inside the delegation");
-    kani::cover!(e.has(K_GLUE, N_NSD) && wide && matches!(t1, Ans::Found { a: false, aaaa: false }), "wide: glue node without addresses");
-    kani::cover!(e.is_empty() && class_code == 1 && matches!(t1, Ans::Found { a: false, aaaa: true }), "IN: AAAA glue suffices");
-    kani::cover!(e.has(K_GLUE, N_NSD) && class_code == 3 && matches!(t1, Ans::Found { a: false, aaaa: true }), "CH: AAAA glue does not count");
-    kani::cover!(e.is_empty() && class_code == 4 && matches!(t1, Ans::NxDomain), "HS: no glue check");
-}
-
-// @harness props=C21 tier=thorough mem=8 t=7200 cbmc="--max-field-sensitivity-array-size 256"
-//   fn="validation::validate,scan_node,check_delegation_ns_address"
-//   bound="apex in order; node d. {NS ns.d.}; lookup_addrs(ns.d.) = Found with symbolic A/AAAA presence (the name server lies in the zone proper); glue lookup symbolic (must not matter); class and policy symbolic; unwind 4"
-//   sym="class, policy, A/AAAA presence, glue-lookup table entry" stubs="S1,M1"
-#[kani::proof]
-#[kani::unwind(4)]
-fn c21_delegation_own_ns_found() {
-    let (e, t0, _t1, class_code, _wide) = delegation_own_ns(0);
-    kani::cover!(e.has(K_NS_ADDR, N_NSD) && matches!(t0, Ans::Found { a: false, .. }), "name server in the zone proper without address");
-    kani::cover!(e.is_empty() && class_code == 1 && matches!(t0, Ans::Found { a: true, .. }), "name server in the zone proper with address");
-}
-
-// @harness props=C21 tier=thorough mem=8 t=7200 cbmc="--max-field-sensitivity-array-size 256"
-//   fn="validation::validate,scan_node,check_delegation_ns_address"
-//   bound="apex in order; node d. {NS ns.d.}; lookup_addrs(ns.d.) = NxDomain (the name server does not exist although it would be in the zone proper); glue lookup symbolic (must not matter); class and policy symbolic; unwind 4"
-//   sym="class, policy, glue-lookup table entry" stubs="S1,M1"
-#[kani::proof]
-#[kani::unwind(4)]
-fn c21_delegation_own_ns_nxdomain() {
-    let (e, _t0, _t1, class_code, _wide) = delegation_own_ns(2);
-    kani::cover!(e.has(K_NS_ADDR, N_NSD) && class_code == 3, "non-existent name server");
-    kani::cover!(e.is_empty() && class_code == 4, "HS: nothing");
-}
-
-// @harness props=C21 tier=thorough mem=8 t=7200 cbmc="--max-field-sensitivity-array-size 256"
-//   fn="validation::validate,scan_node,check_delegation_ns_address"
-//   bound="apex in order; node d. {NS ns.d.}; lookup_addrs(ns.d.) = WrongZone (out-of-zone name server); glue lookup symbolic (must not matter); class and policy symbolic; unwind 4"
-//   sym="class, policy, glue-lookup table entry" stubs="S1,M1"
-#[kani::proof]
-#[kani::unwind(4)]
-fn c21_delegation_own_ns_wrongzone() {
-    let (e, _t0, _t1, class_code, _wide) = delegation_own_ns(4);
-    kani::cover!(e.is_empty() && class_code == 1, "out-of-zone name server: nothing needed");
-}
-
-// @harness props=C21 tier=thorough mem=8 t=7200 cbmc="--max-field-sensitivity-array-size 256"
+// DISABLED (through the real validate this is out of reach).  MEASURED (root zone, unwind 4): 1488 loop unwindings in ~2 h, then CBMC out of memory at 9.6 GB; with apex z. and unwind 6: not finished after 85 min.  Superseded by c21_scan_delegation_sibling_ns.
+// @disabled-harness props=C21 tier=thorough mem=8 t=7200 cbmc="--max-field-sensitivity-array-size 256"
 //   fn="validation::validate,scan_node,check_delegation_ns_address,check_glue"
 //   bound="apex in order; node d. {NS ns.e.} where ns.e. lies in the SIBLING delegation e. (lookup answers Referral(e.)); the glue lookup (search_below_cuts) symbolic; class and glue policy symbolic: narrow needs no glue, wide does; unwind 4"
 //   sym="class, policy, 1 table entry" stubs="S1,M1"
@@ -1001,45 +913,6 @@ fn c21_delegation_sibling_ns() {
     kani::cover!(e.is_empty() && !wide && class_code == 1 && matches!(t1, Ans::NxDomain), "narrow: sibling-zone name server needs no glue");
     kani::cover!(e.has(K_GLUE, N_NSE) && wide && matches!(t1, Ans::NxDomain), "wide: sibling-zone name server needs glue");
     kani::cover!(e.is_empty() && wide && class_code == 1 && matches!(t1, Ans::Found { a: true, .. }), "wide: sibling glue present");
-}
-
-/// Node d. {NS ns.d., NS ns.}: ns.d. is below the cut without glue
-/// (concrete), the plain lookup of ns. answers with kind `k`.
-fn delegation_two_ns(k: usize) -> (IssueSet, Ans, u16, bool) {
-    let (class, class_code) = any_class();
-    let (policy, wide) = any_policy();
-    let mut f = base(class, class_code, policy, wide, &NODES_D_NSD_NSZ, &H_OUT_NSD_GLUE_NSZ_GLUE);
-    f.ns = Some(&RS_NS_OUT);
-    f.table[N_OUT][0] = Ans::WrongZone;
-    f.table[N_NSD][0] = Ans::Referral { child: N_D };
-    f.table[N_NSD][1] = Ans::NxDomain;
-    let t = kind_ans(k, N_E);
-    f.table[N_NSZ][0] = t;
-    (run(&f, 2), t, class_code, wide)
-}
-
-// @harness props=C21 tier=thorough mem=8 t=10800 cbmc="--max-field-sensitivity-array-size 256"
-//   fn="validation::validate,scan_node,check_delegation_ns_address,check_glue"
-//   bound="ns() = {x.} disowned; node d. {NS ns.d., NS ns.}; ns.d. is below the cut and has no glue (always MissingGlue in IN/CH), ns. does not exist (always MissingNsAddress in IN/CH): two different named issues from one RRset; class, policy symbolic; unwind 4"
-//   sym="class, policy" stubs="S1,M1"
-#[kani::proof]
-#[kani::unwind(4)]
-fn c21_delegation_two_ns_nxdomain() {
-    let (e, _t, class_code, _wide) = delegation_two_ns(2);
-    kani::cover!(e.has(K_GLUE, N_NSD) && e.has(K_NS_ADDR, N_NSZ) && class_code == 1, "missing glue and missing address in one RRset");
-    kani::cover!(e.is_empty() && class_code == 4, "HS: nothing");
-}
-
-// @harness props=C21 tier=thorough mem=8 t=10800 cbmc="--max-field-sensitivity-array-size 256"
-//   fn="validation::validate,scan_node,check_delegation_ns_address,check_glue"
-//   bound="ns() = {x.} disowned; node d. {NS ns.d., NS ns.}; ns.d. is below the cut d. without glue, ns. is below the SIBLING cut e. without glue: narrow policy wants glue for the first only, wide for both; class, policy symbolic; unwind 4"
-//   sym="class, policy" stubs="S1,M1"
-#[kani::proof]
-#[kani::unwind(4)]
-fn c21_delegation_two_ns_sibling() {
-    let (e, _t, class_code, wide) = delegation_two_ns(3);
-    kani::cover!(e.has(K_GLUE, N_NSD) && !e.has(K_GLUE, N_NSZ) && !wide && class_code == 1, "narrow: second name server in a sibling zone needs no glue");
-    kani::cover!(e.has(K_GLUE, N_NSD) && e.has(K_GLUE, N_NSZ) && wide, "wide: both need glue");
 }
 
 // @harness props=C21 tier=quick mem=4 t=2400 cbmc="--max-field-sensitivity-array-size 256"
@@ -1063,33 +936,8 @@ fn c21_cname_nodes() {
     kani::cover!(e5.is_empty(), "A + TXT is fine");
 }
 
-/// ns() = {x.} disowned; node *. {NS ns.}; the plain lookup of ns. answers
-/// with kind `k`.
-fn wildcard_ns(k: usize) -> (IssueSet, Ans, u16, bool) {
-    let (class, class_code) = any_class();
-    let (policy, wide) = any_policy();
-    let mut f = base(class, class_code, policy, wide, &NODES_WILD_NS, &H_OUT_NSZ_GLUE);
-    f.ns = Some(&RS_NS_OUT);
-    f.table[N_OUT][0] = Ans::WrongZone;
-    let t = kind_ans(k, N_D);
-    f.table[N_NSZ][0] = t;
-    (run(&f, 2), t, class_code, wide)
-}
-
-// @harness props=C21 tier=thorough mem=8 t=7200 cbmc="--max-field-sensitivity-array-size 256"
-//   fn="validation::validate,scan_node,check_delegation_ns_address"
-//   bound="node *. {NS ns.}; lookup_addrs(ns.) = Found with symbolic A/AAAA presence; class, policy symbolic: NsAtWildcard (warning) in every class, plus MissingNsAddress when there is no address; unwind 4"
-//   sym="class, policy, A/AAAA presence" stubs="S1,M1"
-#[kani::proof]
-#[kani::unwind(4)]
-fn c21_wildcard_ns_found() {
-    let (e, t, class_code, _wide) = wildcard_ns(0);
-    kani::cover!(e.has(K_NS_WILD, N_WILD) && class_code == 4, "NS at wildcard is reported in every class");
-    kani::cover!(e.has(K_NS_WILD, N_WILD) && e.has(K_NS_ADDR, N_NSZ), "warning and error together");
-    kani::cover!(e.has(K_NS_WILD, N_WILD) && !e.has(K_NS_ADDR, N_NSZ) && class_code == 1 && matches!(t, Ans::Found { a: true, .. }), "warning alone");
-}
-
-// @harness props=C21 tier=thorough mem=8 t=10800 cbmc="--max-field-sensitivity-array-size 256"
+// DISABLED (through the real validate this is out of reach).  MEASURED (apex z. replaced by the root zone, unwind 4, --max-field-sensitivity-array-size 256): 46 min of symbolic execution, then CBMC out of memory at 14.2 GB.  Superseded by c21_scan_mx_one.
+// @disabled-harness props=C21 tier=thorough mem=8 t=10800 cbmc="--max-field-sensitivity-array-size 256"
 //   fn="validation::validate,scan_node,check_mx_address"
 //   bound="apex in order; apex node {MX mx.}; lookup_addrs(mx.) symbolic; class, policy symbolic; unwind 4"
 //   sym="class, policy, 1 table entry" stubs="S1,M1"
@@ -1107,81 +955,6 @@ fn c21_mx_one() {
     kani::cover!(e.is_empty() && class_code == 1 && matches!(t, Ans::Found { a: false, aaaa: true }), "IN: AAAA is an address");
     kani::cover!(e.is_empty() && class_code == 1 && matches!(t, Ans::Referral { .. }), "exchanger below a delegation: nothing to report");
     kani::cover!(e.is_empty() && class_code == 4 && matches!(t, Ans::NxDomain), "HS: no address checks");
-}
-
-// @harness props=C21 tier=thorough mem=8 t=10800 cbmc="--max-field-sensitivity-array-size 256"
-//   fn="validation::validate,scan_node,check_mx_address"
-//   bound="apex in order; node h. {MX ns., MX mx.}; ns. exists without any address (concrete; it is also the apex name server: MissingNsAddress and MissingMxAddress for the same name are different issues), lookup_addrs(mx.) symbolic; class, policy symbolic; unwind 4"
-//   sym="class, policy, 1 table entry" stubs="S1,M1"
-#[kani::proof]
-#[kani::unwind(4)]
-fn c21_mx_two() {
-    let (class, class_code) = any_class();
-    let (policy, wide) = any_policy();
-    let mut f = base(class, class_code, policy, wide, &NODES_H_MX2, &H_NSZ_NSZ_MX);
-    f.table[N_NSZ][0] = Ans::Found { a: false, aaaa: false };
-    f.table[N_MX][0] = any_ans(N_D);
-    let e = run(&f, 3);
-    kani::cover!(e.has(K_NS_ADDR, N_NSZ) && e.has(K_MX_ADDR, N_NSZ) && e.has(K_MX_ADDR, N_MX), "three issues, two about one name");
-    kani::cover!(e.has(K_NS_ADDR, N_NSZ) && e.has(K_MX_ADDR, N_NSZ) && !e.has(K_MX_ADDR, N_MX) && class_code == 1, "second exchanger fine");
-    kani::cover!(e.is_empty() && class_code == 4, "HS: nothing");
-}
-
-// @harness props=C21 tier=thorough mem=8 t=10800 cbmc="--max-field-sensitivity-array-size 256"
-//   fn="validation::validate,scan_node,check_apex_ns_address,check_delegation_ns_address,check_glue,check_mx_address"
-//   bound="a zone with nothing wrong in class IN (3 nodes: apex {NS ns., MX mx., TXT}, d. {NS ns.d.} with glue, *. {A, TXT}); ns. has A, mx. has only AAAA, glue is an A record; class and policy symbolic (CH: the AAAA-only exchanger is a warning; HS: nothing); unwind 4"
-//   sym="class, policy" stubs="S1,M1"
-#[kani::proof]
-#[kani::unwind(4)]
-fn c21_clean_zone() {
-    let (class, class_code) = any_class();
-    let (policy, wide) = any_policy();
-    let mut f = base(class, class_code, policy, wide, &NODES_CLEAN, &H_CLEAN);
-    f.table[N_MX][0] = Ans::Found { a: false, aaaa: true };
-    f.table[N_NSD][0] = Ans::Referral { child: N_D };
-    f.table[N_NSD][1] = FOUND_A;
-    let e = run(&f, 1);
-    kani::cover!(e.is_empty() && class_code == 1 && wide, "IN, wide: no issue at all");
-    kani::cover!(e.is_empty() && class_code == 1 && !wide, "IN, narrow: no issue at all");
-    kani::cover!(e.has(K_MX_ADDR, N_MX) && class_code == 3, "CH: AAAA-only exchanger");
-    kani::cover!(e.is_empty() && class_code == 4, "HS: no issue");
-}
-
-// @harness props=C21 tier=thorough mem=8 t=3600 cbmc="--max-field-sensitivity-array-size 256"
-//   fn="validation::validate,scan_node,check_delegation_ns_address,check_glue,ValidationIssue::is_error"
-//   bound="a zone with five issues at once (concrete): no SOA, no NS, d. {NS ns.d. without glue, CNAME x2}; class IN; glue policy symbolic; unwind 7"
-//   sym="policy" stubs="S1,M1"
-#[kani::proof]
-#[kani::unwind(7)]
-fn c21_many_issues() {
-    let (policy, wide) = any_policy();
-    let mut f = base(Class::IN, 1, policy, wide, &NODES_DIRTY, &H_DIRTY);
-    f.soa = None;
-    f.ns = None;
-    f.table[N_NSD][0] = Ans::Referral { child: N_D };
-    f.table[N_NSD][1] = Ans::Cname;
-    let e = run(&f, 5);
-    kani::cover!(
-        e.missing_soa && e.missing_ns && e.has(K_GLUE, N_NSD) && e.has(K_DUP_CNAME, N_D) && e.has(K_CNAME_OTHER, N_D),
-        "five issues"
-    );
-}
-
-// @harness props=C21 tier=thorough mem=8 t=10800 cbmc="--max-field-sensitivity-array-size 256"
-//   fn="validation::validate,scan_node,check_apex_ns_address,check_delegation_ns_address,check_mx_address"
-//   bound="the same issue arising twice is reported once (concrete): ns. does not exist and is the name server of the apex (ns()) and of d.; mx. does not exist and is the exchanger of the apex node and of h. (nodes apex {MX mx.}, d. {NS ns.}, h. {MX mx.}); class IN/CH symbolic, policy symbolic; unwind 4"
-//   sym="class in {IN, CH}, policy" stubs="S1,M1"
-#[kani::proof]
-#[kani::unwind(4)]
-fn c21_same_issue_once() {
-    let (policy, wide) = any_policy();
-    let ch: bool = kani::any();
-    let (class, class_code) = if ch { (Class::CH, 3) } else { (Class::IN, 1) };
-    let mut f = base(class, class_code, policy, wide, &NODES_DEDUPE, &H_DEDUPE);
-    f.table[N_NSZ][0] = Ans::NxDomain;
-    f.table[N_MX][0] = Ans::NxDomain;
-    let e = run(&f, 2);
-    kani::cover!(e.has(K_NS_ADDR, N_NSZ) && e.has(K_MX_ADDR, N_MX), "two issues from four findings");
 }
 
 // @harness props=C21 tier=quick mem=4 t=2400 cbmc="--max-field-sensitivity-array-size 256"
@@ -1260,7 +1033,43 @@ fn check_set(raw: &'static [u8]) {
 // { scan_node(zone, owner, rrsets.collect(), &mut issues)?; }`, which
 // c21_cname_nodes covers through the real validate.
 
-/// Runs scan_node on the first node of `f` (at most 2 RRsets) and compares the
+/// The RRsets of one node as scan_node wants them: a `Vec` of at most two
+/// elements laid over the caller's stack array.
+fn stack_rrsets<'a>(node: &NodeV, arr: &'a mut [IteratedRrset<'static>; 2]) -> Vec<IteratedRrset<'a>> {
+    let n = node.sets.len();
+    assert!(n >= 1 && n <= 2, "[C21] harness: run_scan handles nodes with one or two RRsets");
+    let s0 = &node.sets[0];
+    let s1 = &node.sets[if n > 1 { 1 } else { 0 }];
+    arr[0] = IteratedRrset {
+        rr_type: Type::from(s0.rtype),
+        ttl: Ttl::from(60),
+        rdatas: Cow::Borrowed(rdataset_view(s0.raw)),
+    };
+    arr[1] = IteratedRrset {
+        rr_type: Type::from(s1.rtype),
+        ttl: Ttl::from(60),
+        rdatas: Cow::Borrowed(rdataset_view(s1.raw)),
+    };
+    unsafe { Vec::from_raw_parts(arr.as_mut_ptr(), n, 0) }
+}
+
+fn blank_rrsets() -> [IteratedRrset<'static>; 2] {
+    [
+        IteratedRrset {
+            rr_type: Type::from(T_TXT),
+            ttl: Ttl::from(0),
+            rdatas: Cow::Borrowed(rdataset_view(&RS_TXT)),
+        },
+        IteratedRrset {
+            rr_type: Type::from(T_TXT),
+            ttl: Ttl::from(0),
+            rdatas: Cow::Borrowed(rdataset_view(&RS_TXT)),
+        },
+    ]
+}
+
+/// Runs scan_node on the nodes of `f` (one or two, each with at most 2
+/// RRsets), collecting into ONE issue set as validate does, and compares the
 /// issues with the reference for a zone whose apex contributes nothing
 /// (`f.soa` has one RDATA, `f.ns` names only x., which the table disowns).
 fn run_scan(f: &Facts, cap: usize) -> IssueSet {
@@ -1269,26 +1078,16 @@ fn run_scan(f: &Facts, cap: usize) -> IssueSet {
         f: *f,
         calls: core::cell::Cell::new(0),
     };
-    let node = &f.nodes[0];
-    let n = node.sets.len();
-    let s0 = &node.sets[0];
-    let s1 = &node.sets[if n > 1 { 1 } else { 0 }];
-    let mut arr: [IteratedRrset; 2] = [
-        IteratedRrset {
-            rr_type: Type::from(s0.rtype),
-            ttl: Ttl::from(60),
-            rdatas: Cow::Borrowed(rdataset_view(s0.raw)),
-        },
-        IteratedRrset {
-            rr_type: Type::from(s1.rtype),
-            ttl: Ttl::from(60),
-            rdatas: Cow::Borrowed(rdataset_view(s1.raw)),
-        },
-    ];
-    let rrsets: Vec<IteratedRrset> = unsafe { Vec::from_raw_parts(arr.as_mut_ptr(), n, 0) };
+    assert!(f.nodes.len() >= 1 && f.nodes.len() <= 2, "[C21] harness: run_scan handles one or two nodes");
     let mut issues: HashSet<ValidationIssue> = HashSet::new();
-    let r = scan_node(&zone, pool(node.owner).name(), rrsets, &mut issues);
-    assert!(r.is_ok(), "[C21] scan_node fails on a node whose RDATA is all valid");
+    let mut arr0 = blank_rrsets();
+    let r0 = scan_node(&zone, pool(f.nodes[0].owner).name(), stack_rrsets(&f.nodes[0], &mut arr0), &mut issues);
+    assert!(r0.is_ok(), "[C21] scan_node fails on a node whose RDATA is all valid");
+    let mut arr1 = blank_rrsets();
+    if f.nodes.len() == 2 {
+        let r1 = scan_node(&zone, pool(f.nodes[1].owner).name(), stack_rrsets(&f.nodes[1], &mut arr1), &mut issues);
+        assert!(r1.is_ok(), "[C21] scan_node fails on a node whose RDATA is all valid");
+    }
     let mut seen = IssueSet::empty();
     assert!(issues.len() <= cap, "[C21] more issues than the scenario can have");
     let mut it = issues.iter();
@@ -1302,7 +1101,8 @@ fn run_scan(f: &Facts, cap: usize) -> IssueSet {
     }
     assert!(seen.same(&exp), "[C21] an issue found by the reference checker is not reported");
     core::mem::forget(issues);
-    core::mem::forget(arr);
+    core::mem::forget(arr0);
+    core::mem::forget(arr1);
     exp
 }
 
@@ -1342,4 +1142,196 @@ fn c21_scan_delegation_sibling_ns() {
     kani::cover!(e.is_empty() && !wide && class_code == 1 && matches!(t1, Ans::NxDomain), "narrow: sibling-zone name server needs no glue");
     kani::cover!(e.has(K_GLUE, N_NSE) && wide && matches!(t1, Ans::NxDomain), "wide: sibling-zone name server needs glue");
     kani::cover!(e.is_empty() && wide && class_code == 1 && matches!(t1, Ans::Found { a: true, .. }), "wide: sibling glue present");
+}
+
+// @harness props=C21 tier=quick mem=6 t=3600 cbmc="--max-field-sensitivity-array-size 256"
+//   fn="validation::scan_node,check_delegation_ns_address,check_glue,class_has_addrs,addrs_found"
+//   bound="scan_node on node d. {NS ns.d.}; plain lookup of ns.d.: each of the 5 kinds in turn (Found with symbolic A/AAAA presence, Cname, NxDomain, Referral(d.), WrongZone) x a symbolic answer to the glue lookup (5 kinds, A/AAAA presence); class and glue policy symbolic; unwind 4"
+//   sym="class, policy, A/AAAA presence, glue-lookup table entry" stubs="S1,M1"
+#[kani::proof]
+#[kani::unwind(4)]
+fn c21_scan_delegation_own_ns() {
+    let (class, class_code) = any_class();
+    let (policy, wide) = any_policy();
+    let mut f = quiet_apex(class, class_code, policy, wide, &NODES_D_NSD, &H_NSD_GLUE);
+    let t1 = any_ans(N_D);
+    f.table[N_NSD][1] = t1;
+    let mut es = [IssueSet::empty(); NKIND];
+    let mut ts = [Ans::Cname; NKIND];
+    // the five kinds one after the other (written out: a loop of 5 would need unwind 6)
+    ts[0] = kind_ans(0, N_D);
+    f.table[N_NSD][0] = ts[0];
+    es[0] = run_scan(&f, 1);
+    ts[1] = kind_ans(1, N_D);
+    f.table[N_NSD][0] = ts[1];
+    es[1] = run_scan(&f, 1);
+    ts[2] = kind_ans(2, N_D);
+    f.table[N_NSD][0] = ts[2];
+    es[2] = run_scan(&f, 1);
+    ts[3] = kind_ans(3, N_D);
+    f.table[N_NSD][0] = ts[3];
+    es[3] = run_scan(&f, 1);
+    ts[4] = kind_ans(4, N_D);
+    f.table[N_NSD][0] = ts[4];
+    es[4] = run_scan(&f, 1);
+    let e = &es[3];
+    kani::cover!(e.has(K_GLUE, N_NSD) && !wide && matches!(t1, Ans::NxDomain), "narrow: missing glue for a name server inside the delegation");
+    kani::cover!(e.has(K_GLUE, N_NSD) && wide && matches!(t1, Ans::Found { a: false, aaaa: false }), "wide: glue node without addresses");
+    kani::cover!(e.is_empty() && class_code == 1 && matches!(t1, Ans::Found { a: false, aaaa: true }), "IN: AAAA glue suffices");
+    kani::cover!(e.has(K_GLUE, N_NSD) && class_code == 3 && matches!(t1, Ans::Found { a: false, aaaa: true }), "CH: AAAA glue does not count");
+    kani::cover!(e.is_empty() && class_code == 4 && matches!(t1, Ans::NxDomain), "HS: no glue check");
+    kani::cover!(es[0].has(K_NS_ADDR, N_NSD) && matches!(ts[0], Ans::Found { a: false, .. }), "name server in the zone proper without address");
+    kani::cover!(es[0].is_empty() && class_code == 1 && matches!(ts[0], Ans::Found { a: true, .. }), "name server in the zone proper with address");
+    kani::cover!(es[1].has(K_NS_ADDR, N_NSD) && es[2].has(K_NS_ADDR, N_NSD), "alias / non-existent name server");
+    kani::cover!(es[4].is_empty() && class_code == 1, "out-of-zone name server: nothing needed");
+}
+
+static H_NSD_GLUE_NSZ_GLUE: [(usize, bool); 4] = [(N_NSD, false), (N_NSD, true), (N_NSZ, false), (N_NSZ, true)];
+
+// @harness props=C21 tier=quick mem=6 t=3600 cbmc="--max-field-sensitivity-array-size 256"
+//   fn="validation::scan_node,check_delegation_ns_address,check_glue"
+//   bound="scan_node on node d. {NS ns.d., NS ns.}; ns.d. is below the cut d. and has no glue (always MissingGlue in IN/CH); plain lookup of ns.: each of the 5 kinds in turn (a referral names the SIBLING e., whose glue lookup fails); class, policy symbolic; up to two named issues; unwind 4"
+//   sym="class, policy, A/AAAA presence" stubs="S1,M1"
+#[kani::proof]
+#[kani::unwind(4)]
+fn c21_scan_delegation_two_ns() {
+    let (class, class_code) = any_class();
+    let (policy, wide) = any_policy();
+    let mut f = quiet_apex(class, class_code, policy, wide, &NODES_D_NSD_NSZ, &H_NSD_GLUE_NSZ_GLUE);
+    f.table[N_NSD][0] = Ans::Referral { child: N_D };
+    f.table[N_NSD][1] = Ans::NxDomain;
+    let mut es = [IssueSet::empty(); NKIND];
+    let mut ts = [Ans::Cname; NKIND];
+    // the five kinds one after the other (written out: a loop of 5 would need unwind 6)
+    ts[0] = kind_ans(0, N_E);
+    f.table[N_NSZ][0] = ts[0];
+    es[0] = run_scan(&f, 2);
+    ts[1] = kind_ans(1, N_E);
+    f.table[N_NSZ][0] = ts[1];
+    es[1] = run_scan(&f, 2);
+    ts[2] = kind_ans(2, N_E);
+    f.table[N_NSZ][0] = ts[2];
+    es[2] = run_scan(&f, 2);
+    ts[3] = kind_ans(3, N_E);
+    f.table[N_NSZ][0] = ts[3];
+    es[3] = run_scan(&f, 2);
+    ts[4] = kind_ans(4, N_E);
+    f.table[N_NSZ][0] = ts[4];
+    es[4] = run_scan(&f, 2);
+    kani::cover!(es[2].has(K_GLUE, N_NSD) && es[2].has(K_NS_ADDR, N_NSZ), "missing glue and missing address in one RRset");
+    kani::cover!(es[0].has(K_GLUE, N_NSD) && !es[0].has(K_NS_ADDR, N_NSZ) && matches!(ts[0], Ans::Found { a: true, .. }), "missing glue only");
+    kani::cover!(es[3].has(K_GLUE, N_NSD) && !es[3].has(K_GLUE, N_NSZ) && !wide && class_code == 1, "narrow: second name server in a sibling zone needs no glue");
+    kani::cover!(es[3].has(K_GLUE, N_NSD) && es[3].has(K_GLUE, N_NSZ) && wide, "wide: both need glue");
+}
+
+static H_NSZ_GLUE: [(usize, bool); 2] = [(N_NSZ, false), (N_NSZ, true)];
+static H_NONE: [(usize, bool); 0] = [];
+static NODES_APEX_NS: [NodeV; 1] = [NodeV { owner: N_APEX, sets: &S_NS_NSZ }];
+
+// @harness props=C21 tier=quick mem=6 t=3600 cbmc="--max-field-sensitivity-array-size 256"
+//   fn="validation::scan_node,check_delegation_ns_address,Name::is_wildcard"
+//   bound="scan_node on node *. {NS ns.}: plain lookup of ns.: each of the 5 kinds in turn (a referral names d., whose glue lookup fails): NsAtWildcard (warning) in every class plus the delegation checks; and on the apex node . {NS ns.} with ns. non-existent: nothing (the apex NS set is checked through ns(), not here; any address lookup would fail the harness); class, policy symbolic; unwind 4"
+//   sym="class, policy, A/AAAA presence" stubs="S1,M1"
+#[kani::proof]
+#[kani::unwind(4)]
+fn c21_scan_wildcard_and_apex_ns() {
+    let (class, class_code) = any_class();
+    let (policy, wide) = any_policy();
+    let mut f = quiet_apex(class, class_code, policy, wide, &NODES_WILD_NS, &H_NSZ_GLUE);
+    let mut es = [IssueSet::empty(); NKIND];
+    let mut ts = [Ans::Cname; NKIND];
+    // the five kinds one after the other (written out: a loop of 5 would need unwind 6)
+    ts[0] = kind_ans(0, N_D);
+    f.table[N_NSZ][0] = ts[0];
+    es[0] = run_scan(&f, 2);
+    ts[1] = kind_ans(1, N_D);
+    f.table[N_NSZ][0] = ts[1];
+    es[1] = run_scan(&f, 2);
+    ts[2] = kind_ans(2, N_D);
+    f.table[N_NSZ][0] = ts[2];
+    es[2] = run_scan(&f, 2);
+    ts[3] = kind_ans(3, N_D);
+    f.table[N_NSZ][0] = ts[3];
+    es[3] = run_scan(&f, 2);
+    ts[4] = kind_ans(4, N_D);
+    f.table[N_NSZ][0] = ts[4];
+    es[4] = run_scan(&f, 2);
+    kani::cover!(es[4].has(K_NS_WILD, N_WILD) && class_code == 4, "NS at wildcard is reported in every class");
+    kani::cover!(es[2].has(K_NS_WILD, N_WILD) && es[2].has(K_NS_ADDR, N_NSZ), "warning and error together");
+    kani::cover!(es[0].has(K_NS_WILD, N_WILD) && !es[0].has(K_NS_ADDR, N_NSZ) && class_code == 1 && matches!(ts[0], Ans::Found { a: true, .. }), "warning alone");
+    kani::cover!(es[3].has(K_NS_WILD, N_WILD) && es[3].has(K_GLUE, N_NSZ) && wide, "wide: glue for a name server below another cut");
+    // the apex node's own NS RRset
+    let mut g = quiet_apex(class, class_code, policy, wide, &NODES_APEX_NS, &H_NONE);
+    g.table[N_NSZ][0] = Ans::NxDomain;
+    let ea = run_scan(&g, 1);
+    kani::cover!(ea.is_empty() && class_code == 1, "apex NS RRset is not treated as a delegation");
+}
+
+static H_MX: [(usize, bool); 1] = [(N_MX, false)];
+static H_NSZ_MX_PLAIN: [(usize, bool); 2] = [(N_NSZ, false), (N_MX, false)];
+
+// @harness props=C21 tier=quick mem=6 t=3600 cbmc="--max-field-sensitivity-array-size 256"
+//   fn="validation::scan_node,check_mx_address,class_has_addrs,addrs_found"
+//   bound="scan_node on the apex node . {MX mx.} with lookup_addrs(mx.) symbolic (5 kinds, A/AAAA presence), then on node h. {MX ns., MX mx.} where ns. exists without any address (concrete) and mx. is symbolic: up to two MissingMxAddress warnings; class, policy symbolic; unwind 4"
+//   sym="class, policy, 2 table entries (one per zone)" stubs="S1,M1"
+#[kani::proof]
+#[kani::unwind(4)]
+fn c21_scan_mx() {
+    let (class, class_code) = any_class();
+    let (policy, wide) = any_policy();
+    let mut f = quiet_apex(class, class_code, policy, wide, &NODES_APEX_MX, &H_MX);
+    f.table[N_MX][0] = any_ans(N_D);
+    let e = run_scan(&f, 1);
+    let t = f.table[N_MX][0];
+    kani::cover!(e.has(K_MX_ADDR, N_MX) && matches!(t, Ans::NxDomain), "mail exchanger does not exist");
+    kani::cover!(e.has(K_MX_ADDR, N_MX) && class_code == 3 && matches!(t, Ans::Found { a: false, aaaa: true }), "CH: AAAA is not an address");
+    kani::cover!(e.is_empty() && class_code == 1 && matches!(t, Ans::Found { a: false, aaaa: true }), "IN: AAAA is an address");
+    kani::cover!(e.is_empty() && class_code == 1 && matches!(t, Ans::Referral { .. }), "exchanger below a delegation: nothing to report");
+    kani::cover!(e.is_empty() && class_code == 4 && matches!(t, Ans::NxDomain), "HS: no address checks");
+    let mut g = quiet_apex(class, class_code, policy, wide, &NODES_H_MX2, &H_NSZ_MX_PLAIN);
+    g.table[N_NSZ][0] = Ans::Found { a: false, aaaa: false };
+    g.table[N_MX][0] = any_ans(N_D);
+    let e2 = run_scan(&g, 2);
+    kani::cover!(e2.has(K_MX_ADDR, N_NSZ) && e2.has(K_MX_ADDR, N_MX), "two exchangers without address");
+    kani::cover!(e2.has(K_MX_ADDR, N_NSZ) && !e2.has(K_MX_ADDR, N_MX) && class_code == 1, "second exchanger fine");
+}
+
+static NODES_D_NS_CNAME2: [NodeV; 1] = [NodeV { owner: N_D, sets: &S_NS_NSD_CNAME2 }];
+static NODES_TWO_NS_NSZ: [NodeV; 2] = [NodeV { owner: N_D, sets: &S_NS_NSZ }, NodeV { owner: N_E, sets: &S_NS_NSZ }];
+static NODES_TWO_MX: [NodeV; 2] = [NodeV { owner: N_APEX, sets: &S_MX_MX }, NodeV { owner: N_H, sets: &S_MX_MX }];
+static H_NSZ_NSZ: [(usize, bool); 2] = [(N_NSZ, false), (N_NSZ, false)];
+static H_MX_MX: [(usize, bool); 2] = [(N_MX, false), (N_MX, false)];
+
+// @harness props=C21 tier=quick mem=6 t=3600 cbmc="--max-field-sensitivity-array-size 256"
+//   fn="validation::scan_node,check_delegation_ns_address,check_glue,check_mx_address,ValidationIssue::is_error"
+//   bound="concrete zones, class IN/CH and glue policy symbolic: (a) node d. {NS ns.d. below the cut without glue, CNAME x2}: MissingGlue + DuplicateCname + OtherRecordsAtCname; (b) nodes d. {NS ns.} and e. {NS ns.} with ns. non-existent: ONE MissingNsAddress; (c) nodes . {MX mx.} and h. {MX mx.} with mx. non-existent: ONE MissingMxAddress; the five CNAME shapes of c21_cname_nodes again; unwind 5"
+//   sym="class in {IN, CH}, policy" stubs="S1,M1"
+#[kani::proof]
+#[kani::unwind(5)]
+fn c21_scan_several_issues() {
+    let (policy, wide) = any_policy();
+    let ch: bool = kani::any();
+    let (class, class_code) = if ch { (Class::CH, 3) } else { (Class::IN, 1) };
+    let mut f = quiet_apex(class, class_code, policy, wide, &NODES_D_NS_CNAME2, &H_NSD_GLUE);
+    f.table[N_NSD][0] = Ans::Referral { child: N_D };
+    f.table[N_NSD][1] = Ans::Cname;
+    let e = run_scan(&f, 3);
+    kani::cover!(e.has(K_GLUE, N_NSD) && e.has(K_DUP_CNAME, N_D) && e.has(K_CNAME_OTHER, N_D), "three issues from one node");
+    let mut g = quiet_apex(class, class_code, policy, wide, &NODES_TWO_NS_NSZ, &H_NSZ_NSZ);
+    g.table[N_NSZ][0] = Ans::NxDomain;
+    let e2 = run_scan(&g, 1);
+    kani::cover!(e2.has(K_NS_ADDR, N_NSZ), "one issue from two delegations");
+    let mut h = quiet_apex(class, class_code, policy, wide, &NODES_TWO_MX, &H_MX_MX);
+    h.table[N_MX][0] = Ans::NxDomain;
+    let e3 = run_scan(&h, 1);
+    kani::cover!(e3.has(K_MX_ADDR, N_MX), "one warning from two MX RRsets");
+    let c1 = run_scan(&quiet_apex(class, class_code, policy, wide, &NODES_H_CNAME1, &H_NONE), 2);
+    let c2 = run_scan(&quiet_apex(class, class_code, policy, wide, &NODES_H_CNAME2, &H_NONE), 2);
+    let c3 = run_scan(&quiet_apex(class, class_code, policy, wide, &NODES_H_CNAME1_A, &H_NONE), 2);
+    let c4 = run_scan(&quiet_apex(class, class_code, policy, wide, &NODES_H_TXT_CNAME2, &H_NONE), 2);
+    let c5 = run_scan(&quiet_apex(class, class_code, policy, wide, &NODES_H_A_TXT, &H_NONE), 2);
+    kani::cover!(c1.is_empty() && c5.is_empty(), "lone CNAME and A + TXT are fine");
+    kani::cover!(c2.has(K_DUP_CNAME, N_H) && !c2.has(K_CNAME_OTHER, N_H), "duplicate CNAME only");
+    kani::cover!(c3.has(K_CNAME_OTHER, N_H) && !c3.has(K_DUP_CNAME, N_H), "CNAME and other data only");
+    kani::cover!(c4.has(K_CNAME_OTHER, N_H) && c4.has(K_DUP_CNAME, N_H), "both CNAME issues");
 }
